@@ -362,3 +362,95 @@ Proof.
   - destruct (add_option_same g o g1 E1) as [Hb1 [Ha1 _]].
     exists g'. split; [exact E'|]. split; congruence.
 Qed.
+
+(* ====================================================================================== *)
+(* 6. the invariants that are missing in C06's wf                                          *)
+(* ====================================================================================== *)
+Definition akeyed (na : str * arg) : Prop := fst na = a_name (snd na).
+Definition okeyed (no : str * opt) : Prop := fst no = o_long (snd no).
+
+(* every argument is listed under its own name, at every level *)
+Fixpoint akeys_inv (f : fmt) : Prop :=
+  match f with Fmt b _ _ _ ar _ _ _ _ =>
+    Forall akeyed ar /\ match b with None => True | Some bf => akeys_inv bf end end.
+
+(* options: listed under their long name, once; the short name of a listed option is indexed;
+   listed options have pairwise disjoint names, also against every option of the base chain *)
+Fixpoint opts_inv (f : fmt) : Prop :=
+  match f with Fmt b _ _ _ _ os oss _ _ =>
+    Forall okeyed os /\ NoDup (map fst os) /\
+    (forall k o s, In (k, o) os -> o_short o = Some s -> shas s oss = true) /\
+    opts_sep (map snd os) /\
+    match b with
+    | None => True
+    | Some bf => opts_inv bf /\ (forall k o n, In (k, o) os -> In n (onames o) -> has_option_all bf n = false)
+    end end.
+
+(* the invariant of formats reachable through the API *)
+Definition fmt_inv (f : fmt) : Prop := args_wf f /\ akeys_inv f /\ opts_inv f.
+
+Lemma Forall_sset {V} (P : str * V -> Prop) k v d : Forall P d -> P (k, v) -> Forall P (sset k v d).
+Proof.
+  intros Hd Hp. induction d as [|[k' v'] r IH]; cbn [sset aset]; [constructor; [exact Hp|constructor]|].
+  inversion Hd as [|? ? H1 H2]; subst. destruct (str_eqb_spec k k') as [->|Hn]; constructor; auto.
+Qed.
+
+(* ---- what the invariants say about the flattened listings ---- *)
+Lemma args_all_nodup f : args_inv f -> NoDup (map fst (get_arguments_all f)).
+Proof.
+  induction f as [cn co cs ar os oss hm ho|bf cn co cs ar os oss hm ho IH] using fmt_ind'; intros Hi.
+  - destruct Hi as (_ & _ & Hnd & _). exact Hnd.
+  - rewrite (args_all_app _ Hi). cbn [f_base f_args]. destruct Hi as (_ & _ & Hnd & _ & Hb & Hfr).
+    rewrite map_app. apply NoDup_app_intro; [exact (IH Hb)|exact Hnd|].
+    intros x Hx Hown. specialize (Hfr x Hown). apply sget_none_notin in Hfr. contradiction.
+Qed.
+Lemma args_all_keyed f : args_inv f -> akeys_inv f -> Forall akeyed (get_arguments_all f).
+Proof.
+  induction f as [cn co cs ar os oss hm ho|bf cn co cs ar os oss hm ho IH] using fmt_ind'; intros Hi Hk.
+  - destruct Hk as [Hk _]. exact Hk.
+  - rewrite (args_all_app _ Hi). cbn [f_base f_args]. destruct Hk as [Hk Hkb].
+    destruct Hi as (_ & _ & _ & _ & Hb & _). apply Forall_app. split; [exact (IH Hb Hkb)|exact Hk].
+Qed.
+
+Lemma opts_all_spec f : opts_inv f ->
+  NoDup (map fst (get_options_all f)) /\ Forall okeyed (get_options_all f) /\
+  opts_sep (map snd (get_options_all f)) /\
+  (forall k o n, In (k, o) (get_options_all f) -> In n (onames o) -> has_option_all f n = true).
+Proof.
+  induction f as [cn co cs ar os oss hm ho|bf cn co cs ar os oss hm ho IH] using fmt_ind'; intros Hi.
+  - destruct Hi as (Hk & Hnd & Hsh & Hsep & _). cbn [get_options_all has_option_all].
+    repeat split; auto. intros k o n Hin Hn. apply in_onames in Hn as [->|Hs].
+    + rewrite Forall_forall in Hk. specialize (Hk _ Hin). unfold okeyed in Hk. cbn [fst snd] in Hk. rewrite <- Hk.
+      rewrite keys_in_shas; [reflexivity|]. apply in_map_iff. exists (k, o). split; [reflexivity|exact Hin].
+    + rewrite (Hsh k o n Hin Hs). now rewrite orb_true_r.
+  - destruct Hi as (Hk & Hnd & Hsh & Hsep & Hb & Hfr). destruct (IH Hb) as (Hndb & Hkb & Hsepb & Hnb).
+    assert (get_options_all (Fmt (Some bf) cn co cs ar os oss hm ho) = os ++ get_options_all bf) as E.
+    { cbn [get_options_all]. apply supdate_fresh; [exact Hndb|].
+      intros k Hkin. destruct (sget k os) as [o|] eqn:Eg; [exfalso|reflexivity].
+      apply sget_in in Eg. pose proof Hk as Hk'. rewrite Forall_forall in Hk'. specialize (Hk' _ Eg).
+      unfold okeyed in Hk'. cbn [fst snd] in Hk'.
+      assert (has_option_all bf k = false) as Hf by (apply (Hfr k o k Eg); apply in_onames; now left).
+      apply in_map_iff in Hkin as [[k' o'] [Ek' Hin']]. cbn [fst] in Ek'. subst k'.
+      rewrite Forall_forall in Hkb. pose proof (Hkb _ Hin') as Hko. unfold okeyed in Hko. cbn [fst snd] in Hko.
+      rewrite (Hnb k o' k Hin') in Hf; [discriminate|]. apply in_onames. now left. }
+    rewrite E. repeat split.
+    + rewrite map_app. apply NoDup_app_intro; [exact Hnd|exact Hndb|].
+      intros k Hk1 Hk2. apply in_map_iff in Hk1 as [[k1 o1] [E1 Hin1]]. apply in_map_iff in Hk2 as [[k2 o2] [E2 Hin2]].
+      cbn [fst] in E1, E2. subst k1 k2.
+      assert (In k (onames o1)) as Hn1.
+      { rewrite Forall_forall in Hk. specialize (Hk _ Hin1). unfold okeyed in Hk. cbn [fst snd] in Hk. apply in_onames. now left. }
+      assert (In k (onames o2)) as Hn2.
+      { rewrite Forall_forall in Hkb. specialize (Hkb _ Hin2). unfold okeyed in Hkb. cbn [fst snd] in Hkb. apply in_onames. now left. }
+      pose proof (Hnb k o2 k Hin2 Hn2) as Ht. rewrite (Hfr k o1 k Hin1 Hn1) in Ht. discriminate.
+    + apply Forall_app. split; assumption.
+    + rewrite map_app. apply opts_sep_app; [exact Hsep|exact Hsepb|].
+      intros a b Ha Hbb n Hna Hnb'. apply in_map_iff in Ha as [[k1 o1] [E1 Hin1]]. apply in_map_iff in Hbb as [[k2 o2] [E2 Hin2]].
+      cbn [snd] in E1, E2. subst o1 o2.
+      pose proof (Hnb k2 b n Hin2 Hnb') as Ht. rewrite (Hfr k1 a n Hin1 Hna) in Ht. discriminate.
+    + intros k o n Hin Hn. cbn [has_option_all]. apply in_app_or in Hin as [Hin|Hin].
+      * apply in_onames in Hn as [->|Hs].
+        -- rewrite Forall_forall in Hk. specialize (Hk _ Hin). unfold okeyed in Hk. cbn [fst snd] in Hk. rewrite <- Hk.
+           rewrite keys_in_shas; [reflexivity|]. apply in_map_iff. exists (k, o). split; [reflexivity|exact Hin].
+        -- rewrite (Hsh k o n Hin Hs). now rewrite orb_true_r.
+      * rewrite (Hnb k o n Hin Hn). now rewrite !orb_true_r.
+Qed.
